@@ -21,6 +21,11 @@ CODECS = {
     "OsuSv": "reamber.osu.OsuSv.OsuSv",
     "OsuSample": "reamber.osu.OsuSample.OsuSample",
 }
+# slots that are bit fields in the .osu format (osu! file format v14, timing points: `effects`, bit 0 = kiai, bit 3 = omit first
+# barline); the model keeps only the named bit
+BIT_FLAGS = {"kiai": (1, "effects")}
+# trailing fields the format makes optional (storyboard `Sample,time,layer,"file"[,volume]`, volume defaults to 100)
+OPTIONAL_SLOTS = {"OsuSample": (4, "volume", 100)}
 NOTE_META = "reamber.osu.OsuNoteMeta.OsuNoteMeta"
 TP_META = "reamber.osu.OsuTimingPointMeta.OsuTimingPointMeta"
 
@@ -156,6 +161,16 @@ def _compat(rops: List[str], wops: List[str], space_after: bool) -> Tuple[str, s
         if space_after and not r_strip:
             return R.VIOL, "writer emits a blank after ':' but the reader does not strip it (drifts on every cycle)"
         return R.OK, "str <-> str" + (" (strip is an idempotent normalisation)" if r_strip else "")
+    fmts = [o for o in wc if o.startswith("fmt:")]
+    if fmts and rc in (["int"], ["float"]):
+        import re as _re
+        m_ = _re.fullmatch(r"fmt:(?:\.(\d+))?([gGrsd]?)", fmts[0])
+        digits = int(m_.group(1)) if m_ and m_.group(1) else (6 if m_ and m_.group(2) in ("g", "G") else None)
+        if m_ and m_.group(2) in ("g", "G") and digits is not None and digits < 15:
+            return R.VIOL, (f"written with format '{fmts[0][4:]}' ({digits} significant digits): a value of {digits + 1} or more digits is "
+                            f"written rounded or in exponent form ('1.23457e+06'), which the reader's {rc[0]}() "
+                            + ("cannot parse" if rc == ["int"] else "reads back as a different number"))
+        wc = [o for o in wc if not o.startswith("fmt:")] + (["fmt:g"] if m_ else fmts)
     if rc == ["int"]:
         if wc in ([], ["fmt:g"], ["int"], ["int", "fmt:g"]):
             return R.OK, "int <-> text"
@@ -425,6 +440,13 @@ def _slot_compat(field: str, rops: List[str], wops: List[str]) -> Tuple[str, str
         return R.OK, "float <-> text" + (" (int() truncation < 1 ms)" if wc == ["int"] else "")
     if rc == ["int"] and wc in ([], ["int"]):
         return R.OK, "int <-> text"
+    if field in BIT_FLAGS:
+        bit, what = BIT_FLAGS[field]
+        if rc == ["int", f"and:{bit}", "bool"] and wc == ["int"]:
+            return R.OK, f"bool(int(v) & {bit}) <-> int(b): bit {bit} of the {what} bit field"
+        if rc == ["int", "bool"]:
+            return R.VIOL, (f"the slot is the '{what}' BIT FIELD of the format and '{field}' is its bit {bit}: bool(int(v)) reads any other "
+                            f"flag (8 = omit first barline) as {field} on, and the writer then emits {field} = 1")
     if rc == ["int", "bool"] and wc == ["int"]:
         return R.OK, "bool(int(v)) <-> int(b)"
     if rc == ["int", "bool"] and wc == []:
@@ -521,6 +543,39 @@ def rule_r3(ctx) -> List[R.Inst]:
                 insts.append(R.viol("C01.R3", f"{name}.{f}", file, wret.lineno,
                                     f"writer emits '{f}' which is not a declared field of {name}",
                                     construct=f"{name}.{f} undeclared"))
+    # trailing fields the format makes optional: the reader may index them only under a length test
+    for name, (idx, fld, dflt) in OPTIONAL_SLOTS.items():
+        cq = CODECS[name]
+        rfn = M.fn(cq + ".read_string")
+        file = M.mods[rfn.mod].rel
+        parents = {}
+        for n in ast.walk(rfn.node):
+            for ch in ast.iter_child_nodes(n):
+                parents[id(ch)] = n
+        subs = [n for n in ast.walk(rfn.node) if isinstance(n, ast.Subscript) and isinstance(n.slice, ast.Constant) and n.slice.value == idx
+                and isinstance(n.value, ast.Name)]
+        key = f"{name}.{fld}:optional"
+        if not subs:
+            insts.append(R.undec("C01.R3", key, file, rfn.node.lineno, f"slot {idx} is not read"))
+            continue
+        bad = []
+        for sb in subs:
+            cur, guarded = sb, False
+            while id(cur) in parents:
+                cur = parents[id(cur)]
+                if isinstance(cur, (ast.IfExp, ast.If)) and any(isinstance(x, ast.Call) and call_name(x) == "len" and x.args and
+                                                                unparse(x.args[0]) == sb.value.id for x in ast.walk(cur.test)):
+                    guarded = True
+                    break
+            if not guarded:
+                bad.append(sb)
+        if bad:
+            insts.append(R.viol("C01.R3", key, file, bad[0].lineno,
+                                f"field {idx} ('{fld}') of a {name} line is optional in the format (default {dflt}); '{unparse(bad[0])}' is read "
+                                f"unconditionally, so a line without it makes the whole file unreadable",
+                                construct=f"{name}: {unparse(bad[0])} without a length test"))
+        else:
+            insts.append(R.ok("C01.R3", key, file, subs[0].lineno, idiom=f"slot {idx} read under a length test (default {dflt})"))
     return insts
 
 
@@ -838,7 +893,13 @@ def rule_r8(ctx) -> List[R.Inst]:
                 b = core[0]
                 while isinstance(b, ast.Call) and call_name(b) in ("int", "floor"):
                     b = b.args[0]
-                if isinstance(b, ast.BinOp) and isinstance(b.op, ast.FloorDiv) and unparse(b.left) == params_of(fc.node)[0]:
+                xp = params_of(fc.node)[0]
+                if isinstance(b, ast.BinOp) and isinstance(b.op, ast.FloorDiv) and isinstance(b.right, ast.Constant) and \
+                        isinstance(b.right.value, (int, float)) and sym.canon(b.left).same(sym.parse(f"{xp} * keys")):
+                    W = b.right.value          # x * keys // W: exact integer arithmetic
+                    ok_c = True
+                elif isinstance(b, ast.BinOp) and isinstance(b.op, ast.FloorDiv) and unparse(b.left) == xp:
+                    inexact_quotient = isinstance(b.right, ast.BinOp) and isinstance(b.right.op, ast.Div)
                     r = sym.canon(b.right)
                     # r == W / keys for a numeric W: try the constant in the numerator over the coefficient of `keys`
                     if list(r.num) == [()] and len(r.den) == 1:
@@ -846,8 +907,14 @@ def rule_r8(ctx) -> List[R.Inst]:
                         if r.same(sym.parse(f"({cand.numerator}/{cand.denominator}) / keys")):
                             W = cand if cand.denominator != 1 else cand.numerator
                             ok_c = True
-    if ok_c:
-        insts.append(R.ok(rid, key, file, rc[0].lineno, idiom=f"clamp(floor(x // ({W}/keys)), 0, keys-1): floor bucket of width {W}/keys"))
+    if ok_c and locals().get("inexact_quotient"):
+        insts.append(R.viol(rid, key, file, rc[0].lineno,
+                            f"the bucket is computed as x // ({W} / keys): the width {W}/keys is rounded to a float first, so for key counts "
+                            f"that do not divide {W} an x exactly on a bucket edge falls into the bucket below (10K: {W}/10 = 51.2 is stored "
+                            f"slightly high, 256 // 51.2 = 4, but x = 256 is the first x of column 5); x * keys // {W} is exact",
+                            construct=unparse(e)))
+    elif ok_c:
+        insts.append(R.ok(rid, key, file, rc[0].lineno, idiom=f"clamp(floor(x * keys // {W}), 0, keys-1): floor bucket of width {W}/keys, exact"))
     else:
         insts.append(R.viol(rid, key, file, fc.node.lineno,
                             "x -> column must be the floor bucket floor(x / (W / keys)) clamped to 0..keys-1 (W the playfield width)",
